@@ -7,6 +7,58 @@ from fitlib import K_text, ub_text, parse_prep, certify_rows, fsqrt
 from certlib import dual_hints, cert_args_text
 
 
+def common_domain_exact(domains):
+    """the documented common domain of several grids (C19, model Dreye.equalize), in exact arithmetic: from the largest minimum to the
+    smallest maximum, round-half-even((hi - lo) / coarsest mean step) equal intervals"""
+    ds = [[F(v) for v in d] for d in domains]
+    lo = max(min(d) for d in ds); hi = min(max(d) for d in ds)
+    step = max((max(d) - min(d)) / (len(d) - 1) for d in ds)
+    k = int(round((hi - lo) / step))         # round() of a Fraction rounds half to even
+    return [lo + i * (hi - lo) / k for i in range(k)] + [hi]
+
+
+def interp_exact(xs, ys, t):
+    """linear interpolation of the tabulated function (xs ascending) at t, 0 outside the table"""
+    if t < xs[0] or t > xs[-1]:
+        return F(0)
+    for i in range(len(xs) - 1):
+        if t <= xs[i + 1]:
+            return ys[i] + (ys[i + 1] - ys[i]) / (xs[i + 1] - xs[i]) * (t - xs[i])
+    return ys[-1]
+
+
+def trapz_exact(dom, y):
+    return sum((dom[i + 1] - dom[i]) * (y[i] + y[i + 1]) / 2 for i in range(len(dom) - 1))
+
+
+def gen_foreign_domain(drng, A, nf, ns):
+    """a system whose sources are measured on their OWN wavelength grid (register_system(sources, domain=...)): filters (and their
+    uncertainty) are tabulated on a uniform grid x0 + d_f * i, the sources on a grid of step r * d_f (r = 1: as fine, r = 2: coarser)
+    that is shifted against the filter grid by t * d_f (t = 1/4, 1/2, 3/4), so that every point of the common domain lies strictly
+    BETWEEN two filter grid points. Source k is a narrow line (one grid point, height 1 / step) between the filter grid points
+    i_k and i_k + 1, where the filters take the value A[:, k] on both: the capture matrix of the registered system is then exactly
+    the intended A (all data dyadic: interpolation and the trapezoid sums are exact in floating point). Elsewhere the filters take
+    random values. Returns the grids, the index brackets and the arrays."""
+    d_f = float(drng.choice([0.5, 1.0, 2.0, 4.0])); r = int(drng.integers(1, 3)); t = float(drng.choice([0.25, 0.5, 0.75]))
+    x0 = float(drng.integers(300, 401))
+    gap = 2 if r == 1 else 1
+    js = [1 + int(drng.integers(0, 2))]
+    for _ in range(ns - 1):
+        js.append(js[-1] + gap + int(drng.integers(0, 2)))
+    Ns = js[-1] + 2 + int(drng.integers(0, 2))
+    Nf = r * (Ns - 1) + 2 + int(drng.integers(0, 3))
+    Df = x0 + d_f * np.arange(Nf); Ds = x0 + t * d_f + r * d_f * np.arange(Ns)
+    filt = dyadic(drng, 0.25, 3, 2, size=(nf, Nf))
+    src = np.zeros((ns, Ns))
+    br = []
+    for k_, j in enumerate(js):
+        i = j * r
+        filt[:, i] = A[:, k_]; filt[:, i + 1] = A[:, k_]
+        src[k_, j] = 1.0 / (r * d_f)
+        br.append(i)
+    return dict(d_f=d_f, ratio=r, shift=t, Df=Df, Ds=Ds, filt=filt, src=src, brackets=br, lines=js)
+
+
 def run(R):
     import dreye
     from dreye.api.optimize.lsq_linear import lsq_linear, lsq_linear_minimize
@@ -21,7 +73,14 @@ def run(R):
               "the string 'heteroscedastic' or the estimator's default. Histories: ONE estimator (and one caller-held variance array) per system, the "
               "inside and the outside target are fitted one after the other on it and every predicate is evaluated on every call against the "
               "variance VALUES registered at the start (stratified: every block of 5 systems has a matrix-K/default and a non-uniform-vector-K/"
-              "array-valued system); registered state and arguments must be unchanged after each call. With and without an L1 request. Two thirds of the systems get one more call at the end of the history: all targets "
+              "array-valued system, a system with sampled filter functions, and a system whose variance model derives from standard deviations while its sources are "
+              "measured on their own grid); registered state and arguments must be unchanged after each call. Registration on TWO grids (that stratum and a third of the other estimator systems): the receptors (filters, "
+              "standard deviations / sampled filter functions) are tabulated on a uniform wavelength grid (step 1/2..4), the sources are registered afterwards with register_system(sources, domain=) on "
+              "a grid of the same or the double step shifted by 1/4, 1/2 or 3/4 of the filter step (grids as float / integer dtype when whole / strided / list), so that every point "
+              "of the common domain lies between two filter grid points; the sources are single-point lines placed where the filters are locally constant, so the capture matrix is "
+              "exactly the intended one (checked), while the standard deviations vary freely: the estimator's default variance model must then be the capture, on the common domain "
+              "(C19), of the squared linearly-interpolated registered standard deviation by the squared source (exact arithmetic; the Lean models equalize + capture must give the same "
+              "matrix exactly), entry by entry to 1e-10 relative. With and without an L1 request. Two thirds of the systems get one more call at the end of the history: all targets "
               "(plus possibly a third one) in ONE call with batch_size 2, 3 or 'full' (batches that divide the rows, a padded last batch, a batch larger than the row count; "
               "in- and out-of-gamut rows share a batch; one l2_eps, L1 none or one request per row; Fortran/strided target arrays) -- every row of the answer is judged like a single call. For every row: the attainable error is the "
               "exact bounded-LS optimum (Lean-verified KKT); dreye's answer must stay within l2_eps of it, inside the L1 window, "
@@ -29,6 +88,7 @@ def run(R):
               "(theorem minvar_opt_of_cert). Non-trivial: every row (the variance objective is never trivially optimal).")
     jobs = []
     rows1 = []
+    fdchecks = []
     for si in range(nsys):
         rng = R.rng(1, si)
         strat = si % 5       # stratification: 0 = matrix K / default model, 1 = non-uniform vector K / array-valued model, 3 = sampled filter uncertainty, others random
@@ -45,8 +105,13 @@ def run(R):
         w = None if rng.integers(2) else dyadic(rng, 0.5, 2, 2, size=nf)
         wv = np.ones(nf) if w is None else w
         ek = "default" if strat == 0 else str(rng.choice(["explicit", "uncertainty"] if strat == 1 else ["default", "explicit", "uncertainty"]))
-        if strat == 3:
-            ek = "uncertainty"      # stratification: every block of 5 systems has one whose variance model comes from sampled filter functions
+        if strat in (2, 3):
+            ek = "uncertainty"      # stratification: every block of 5 systems has one whose variance model comes from sampled filter functions (3)
+                                    # and one whose model comes from a standard deviation while the sources are measured on their own grid (2)
+        # sources measured on their OWN wavelength grid (own random stream): a third of the estimator systems and every system of stratum 2
+        drng = R.rng(5, si)
+        fd_draw = bool(drng.integers(3) == 0) or strat == 2
+        fd = None
         Eps = None          # pristine VALUES of the variance matrix (what the model sees); never handed to the implementation
         Eps_given = None    # the caller's array: the same object is handed to every call of this system's history
         sigf = None
@@ -70,7 +135,24 @@ def run(R):
             # the other documented form of filters_uncertainty: SAMPLES of the filter functions (n_samples x n_filters x n_domain); the variance
             # model is the (population) variance over the samples of the capture of every source by every filter. Own random stream.
             urng = R.rng(4, si)
-            if strat == 3 or urng.integers(2):
+            u_ = urng.integers(2)
+            samples_route = strat == 3 or bool(u_ and strat != 2)
+            if fd_draw:
+                fd = gen_foreign_domain(drng, A, nf, ns)
+            if fd is not None and not samples_route:
+                # standard deviations tabulated on the filter grid. The documented model: the registered function sigma_f (linear between
+                # its grid points, exactly like the filters for the capture matrix) squared, times the squared source, integrated over
+                # the common domain (C19) - evaluated here in exact arithmetic; the Lean model (equalize + capture) is asked for the
+                # same matrix below and must agree exactly
+                sigf = dyadic(drng, 0.125, 1, 3, size=(nf, len(fd["Df"])))
+                dom_ = common_domain_exact([fd["Df"], fd["Ds"]])
+                DfF = [F(v) for v in fd["Df"]]; DsF = [F(v) for v in fd["Ds"]]
+                sig_i = [[interp_exact(DfF, [F(v) for v in row], t_) for t_ in dom_] for row in sigf]
+                src_i = [[interp_exact(DsF, [F(v) for v in row], t_) for t_ in dom_] for row in fd["src"]]
+                EpsF = [[trapz_exact(dom_, [a_ * a_ * b_ * b_ for a_, b_ in zip(sr, sc_)]) for sc_ in src_i] for sr in sig_i]
+                Eps = np.array([[float(v) for v in row] for row in EpsF])
+                fd["sigma"] = sigf
+            if samples_route:
                 route = "uncertainty-samples"
                 S = int(urng.integers(2, 9))
                 kexp = urng.integers(4, 13, size=(nf, ns))                 # spread of pair (c,k): 2^-kexp (filters known coarsely ... very precisely)
@@ -81,9 +163,20 @@ def run(R):
                 samp = A[None] + z * 2.0 ** (-kexp.astype(float))[None]    # exactly representable, positive (A >= 1/4, |deviation| <= 3/16)
                 sampF = [[[F(v) for v in samp[:, c_, k_]] for k_ in range(ns)] for c_ in range(nf)]
                 Eps = np.array([[float(sum((v - sum(col) / S) ** 2 for v in col) / S) for col in row] for row in sampF])   # exact variance, rounded once
-                sigf = as_given(urng, np.concatenate([np.zeros((S, nf, 1)), samp, np.zeros((S, nf, 1))], axis=2), R, "filters_uncertainty", kinds=("same", "fortran", "strided"))
+                if fd is not None:
+                    # the sampled filter functions on the filter grid: every sample takes its value samp[:, :, k] on both grid points around line k
+                    full = fd["filt"][None] + drng.integers(-3, 4, size=(S, nf, len(fd["Df"]))).astype(float) / 16.0
+                    for k_, i_ in enumerate(fd["brackets"]):
+                        full[:, :, i_] = samp[:, :, k_]; full[:, :, i_ + 1] = samp[:, :, k_]
+                else:
+                    full = np.concatenate([np.zeros((S, nf, 1)), samp, np.zeros((S, nf, 1))], axis=2)
+                sigf = as_given(urng, full, R, "filters_uncertainty", kinds=("same", "fortran", "strided"))
                 R.count("uncertainty samples:%d" % S)
                 R.count("uncertainty samples, smallest spread:2^-%d" % int(kexp.max()))
+        if via == "estimator" and fd_draw and fd is None:
+            fd = gen_foreign_domain(drng, A, nf, ns)
+        R.count("sources registered on:%s" % ("no estimator" if via != "estimator" else "the filters' scalar-step domain" if fd is None else
+                                              "their own grid (step x%d, shifted by %g of the filter step)" % (fd["ratio"], fd["shift"])))
         A_given = as_given(rng, A.copy(), R, "A", kinds=("same", "fortran", "strided")) if via == "function" else A
         targets = ["inside", "outside"]
         keys = ["s%d_%s" % (si, tk) for tk in targets]
@@ -99,7 +192,26 @@ def run(R):
         # ONE estimator (and one caller-held variance array) per system: the targets are fitted one after the other on it,
         # as a user's session would; the property has to hold for every call of such a history, not only for the first
         est = None; stE = "ok"; outE = None
-        if via == "estimator":
+        fd_pub = None if fd is None else dict(filter_domain=fd["Df"], sources_domain=fd["Ds"], filters=fd["filt"], sources=fd["src"],
+                                              filters_uncertainty=(np.asarray(sigf) if sigf is not None else None))
+        if via == "estimator" and fd is not None:
+            # two-step registration: the receptors with their grid, then the sources with THEIR grid (the grids in a representation of their own:
+            # whole-number wavelengths may come with an integer dtype, as a list, as a strided view)
+            Df_g = as_given(drng, fd["Df"], R, "filter domain", kinds=("same", "int", "strided", "list"))
+            Ds_g = as_given(drng, fd["Ds"], R, "sources domain", kinds=("same", "int", "strided", "list"))
+            stE, est = call(dreye.ReceptorEstimator, fd["filt"], domain=Df_g, filters_uncertainty=sigf, K=(1.0 if K is None else K), baseline=base,
+                            w=(1.0 if w is None else w))
+            if stE == "ok":
+                stE, outE = call(est.register_system, fd["src"], domain=Ds_g, lb=lb, ub=ub, **(dict(Epsilon=Eps_given) if route == "registered" else {}))
+                if stE == "ok":
+                    outE = None
+                    if not np.array_equal(np.asarray(est.A, dtype=float), A):
+                        R.failA(dict(k="s%d" % si, A=A, estimator_A=np.asarray(est.A, dtype=float), foreign_domain=fd),
+                                "the capture matrix of the system registered on its own grid is not the intended A (capture of interpolated filters and sources)")
+                    fdchecks.append((si, fd, A, (Eps if "sigma" in fd else None)))
+            else:
+                outE, est = est, None
+        elif via == "estimator":
             stE, est = call(dreye.ReceptorEstimator, filt, domain=1.0, filters_uncertainty=sigf, K=(1.0 if K is None else K), baseline=base,
                             w=(1.0 if w is None else w), sources=src, lb=lb, ub=ub)
             if stE == "ok" and route == "registered":
@@ -148,6 +260,8 @@ def run(R):
             L1 = float(np.sum(xt)) if useL1 else None
             c = dict(k=k, target=tk, nf=nf, ns=ns, A=A, K=K, K_kind=kk, baseline=base, baseline_kind=bk, lb=lb, ub=ub, w=w, b=b, eps_kind=ek,
                      Epsilon=Eps, eps_route=route, l2_eps=l2eps, L1=L1, l1_eps=l1eps, via=via, call_index=ti, earlier_calls=keys[:ti])
+            if fd is not None:
+                c["registered_on_two_grids"] = fd_pub
             # the implementation is run for every step of the history (also when only a later step is selected by --case)
             if via == "estimator":
                 if stE != "ok":
@@ -208,12 +322,32 @@ def run(R):
             c = dict(k=k, target=btargets[t], nf=nf, ns=ns, A=A, K=K, K_kind=kk, baseline=base, baseline_kind=bk, lb=lb, ub=ub, w=w, b=Ball[j], eps_kind=ek,
                      Epsilon=Eps, eps_route=route, l2_eps=l2eps, L1=(None if L1arr is None else float(L1arr[j])), l1_eps=l1eps, via=via, call_index=len(targets),
                      earlier_calls=keys, batch=dict(row=j, rows=nb, batch_size=bs, layout=layout, B=Ball, L1=L1arr, kinds=[btargets[t_] for t_ in border]))
+            if fd is not None:
+                c["registered_on_two_grids"] = fd_pub
             if st == "ok" and via == "estimator" and route in ("uncertainty", "uncertainty-samples", "registered"):
                 c["estimator_Epsilon"] = np.array(est.Epsilon, dtype=float)
             add_job(c, st, (tuple(o[j:j + 1] for o in outs) if st == "ok" else out), Ball[j], *fits0[j])
+    # systems registered on two grids: the Lean model of the domain equalisation (C19) interpolates filters / standard deviations / sources
+    # onto the common domain ...
+    for si_, fd_, A_, Eps_ in fdchecks:
+        fa = [list(r_) for r_ in fd_["filt"]] + ([list(r_) for r_ in fd_["sigma"]] if Eps_ is not None else [])
+        R.driver.ask("D%d" % si_, "equalize", 0, 0, 2, vs(fd_["Df"]), vs(fd_["Ds"]), 2, " ".join([str(len(fa))] + [vs(r_) for r_ in fa]),
+                     " ".join([str(len(fd_["src"]))] + [vs(r_) for r_ in fd_["src"]]))
     certify_rows(R, "c9", rows1)       # exact stage-1 optimum (and driver.run for the eps models)
     for r in rows1:
         r["job"]["stage1"] = r
+    # ... and its capture model (C01) integrates: the capture matrix, and the capture of sigma^2 by source^2 (the default variance model)
+    for si_, fd_, A_, Eps_ in fdchecks:
+        t = R.driver.get("D%d" % si_)
+        if t is None or t.tok() != "interp":
+            continue
+        nd_m = t.vec(); t.nat()
+        n0 = t.nat(); a0 = [t.vec() for _ in range(n0)]
+        n1 = t.nat(); a1 = [t.vec() for _ in range(n1)]
+        nf_ = len(fd_["filt"])
+        R.driver.ask("DA%d" % si_, "capture", "grid " + vs(nd_m), ms(a0[:nf_]), ms(a1))
+        if Eps_ is not None:
+            R.driver.ask("DE%d" % si_, "capture", "grid " + vs(nd_m), ms([[v * v for v in r_] for r_ in a0[nf_:]]), ms([[v * v for v in r_] for r_ in a1]))
     for job in jobs:
         c = job["c"]; k = c["k"]
         if job["st"] != "ok" or "stage1" not in job:
@@ -242,6 +376,18 @@ def run(R):
         if job["st0"] == "ok":
             R.driver.ask("o" + k, "capvar", ms(EpsM), vs(np.asarray(job["out0"][0])[0]))
     R.driver.run()
+    for si_, fd_, A_, Eps_ in fdchecks:
+        for rid, want, what in (("DA%d" % si_, A_, "capture matrix"), ("DE%d" % si_, Eps_, "default variance model (capture of the squared standard deviation by the squared sources)")):
+            if want is None:
+                continue
+            t = R.driver.get(rid)
+            ok = t is not None and t.t and t.t[0] != "ERR"
+            if ok:
+                m = t.mat()       # sources x filters
+                ok = len(m) == want.shape[1] and all(len(r_) == want.shape[0] for r_ in m) and all(m[k_][c_] == F(want[c_, k_]) for k_ in range(want.shape[1]) for c_ in range(want.shape[0]))
+            R.cert(ok)
+            if not ok:
+                R.failA(dict(k="s%d" % si_, foreign_domain=fd_, expected=want), "system registered on two grids: the Lean model (equalize + capture) does not give the harness's %s" % what)
     for job in jobs:
         c = job["c"]; k = c["k"]
         R.case(c, (k,), sample=(c["eps_kind"] != "default"))
